@@ -565,7 +565,7 @@ func (pk *Packet) DisconnectEncode(buf *bytes.Buffer) error {
 
 // DisconnectDecode decodes a Disconnect packet.
 func (pk *Packet) DisconnectDecode(buf []byte) error {
-	if pk.ProtocolVersion == 5 && pk.FixedHeader.Remaining > 1 {
+	if pk.ProtocolVersion == 5 && pk.FixedHeader.Remaining > 0 { // the reason code may be omitted only if the remaining length is 0
 		var err error
 		var offset int
 		pk.ReasonCode, offset, err = decodeByte(buf, offset)
@@ -573,7 +573,7 @@ func (pk *Packet) DisconnectDecode(buf []byte) error {
 			return fmt.Errorf("%s: %w", err, ErrMalformedReasonCode)
 		}
 
-		if pk.FixedHeader.Remaining > 2 {
+		if pk.FixedHeader.Remaining > 1 { // the property length may be omitted only if the remaining length is less than 2
 			_, err = pk.Properties.Decode(pk.FixedHeader.Type, bytes.NewBuffer(buf[offset:]))
 			if err != nil {
 				return fmt.Errorf("%s: %w", err, ErrMalformedProperties)
